@@ -67,12 +67,14 @@ PROP = {'gen': [],
  'trusted_base': [KERNEL,
                   'hand-written model Automata/Tokenizer.v of MatcherDecoder (decode, decode_byte, take_candidate) and decode_into, tied '
                   'to the code by the correspondence run',
-                  'verif-hooks dump of the compiled automata (verif::dump_dfa, Tokenizer::dump) and translate/dfa.py (Gen/ProdDFA.v)',
+                  'verif-hooks dump of the compiled automata (verif::dump_dfa, Tokenizer::dump) and translate/dfa.py (Gen/ProdDFA.v; listing of the '
+                  'methods of the decoder types, any other surface is reported)',
                   'for C03_prod_language_event / _command (Props/C03Prod.v): verif::dump_nfa, harness tool c15prod (DOT parser), translate/c15prod.py (Gen/ProdNFA.v) and the '
                   'certificate checker of C15 (Automata/ProdCheck.v, verified)',
                   HARNESS],
  'assumptions': ['the BufRead handed to decode exposes all bytes of the read in one fill_buf (Cursor, &[u8]) as at every call site in '
-                 'the crate; a reader exposing less is a finer partition into reads',
+                 'the crate; a reader exposing less is a finer partition into reads (exercised by the correspondence run: scripted '
+                 'readers exposing one byte / a window at a time, empty reads, Interrupted / TimedOut errors, decoder reused)',
                  'payload decoders are deterministic functions of the matched bytes (they are pure Rust functions of a byte slice)',
                  'C03_longest: is_terminal states have no outgoing transition (proved for the production tables, C03_prod_terminal)',
                  'C03_poll_loop: the image handler is a stateless function of the event and returns Ok on every event of the stream',
